@@ -1,5 +1,6 @@
 import RedkaModel.Proto
 import RedkaModel.Model.Inv
+import RedkaModel.Spec.Abs
 
 open Redka Redka.Proto
 
@@ -37,14 +38,20 @@ def judge (line : String) : String :=
         let post := canon post
         let cands := (variants op).map (fun o => runModel mode o now pre)
         let inv := if post.invB then "1" else "0"
-        if cands.any (fun r => isOutOfDomain r.out) then s!"{seq} M=- I={inv}"
+        let inTx := mode == "tx"
+        let sv := match Spec.check inTx op now pre post res with
+          | some true => "1" | some false => "0" | none => "-"
+        let ks := String.intercalate "," (Spec.known inTx op now pre)
+        let invPre := if (canon pre).invB then "1" else "0"
+        let tail := s!"P={invPre} I={inv} S={sv} K={ks}"
+        if cands.any (fun r => isOutOfDomain r.out) then s!"{seq} M=- {tail}"
         else
           match cands.find? (fun r => outEq r.out res && decide (canon r.db = post)) with
-          | some _ => s!"{seq} M=1 I={inv}"
+          | some _ => s!"{seq} M=1 {tail}"
           | none =>
             match cands.head? with
-            | some r => s!"{seq} M=0 I={inv} model= {showOut r.out} | {showDump (canon r.db)}"
-            | none => s!"{seq} M=0 I={inv}"
+            | some r => s!"{seq} M=0 {tail} model= {showOut r.out} | {showDump (canon r.db)}"
+            | none => s!"{seq} M=0 {tail}"
       | none, _, _, _, _ => s!"{seq} ERR bad now"
       | _, .error e, _, _, _ => s!"{seq} ERR pre: {e}"
       | _, _, .error e, _, _ => s!"{seq} ERR op: {e}"
